@@ -233,7 +233,7 @@ func genCluster(seed uint64, tier, variant string) any {
 		}
 	}
 	if cl.ToReplicas != "" {
-		cl.Selector = pick(r, "", "rs:0", "rs:last", "rs:mod", "rs:oob", "rs:neg", "rn:0", "rn:last", "rn:mod", "rn:oob", "rn:neg")
+		cl.Selector = pick(r, "", "rs:0", "rs:last", "rs:mod", "rs:oob", "rs:neg", "rn:0", "rn:last", "rn:mod", "rn:oob", "rn:neg", "rn:alt", "rn:alt")
 	}
 	p.Opt.DisableRetry = r.IntN(6) == 0
 	if r.IntN(2) == 0 {
@@ -316,10 +316,18 @@ func genCluster(seed uint64, tier, variant string) any {
 					}
 				}
 			case x < 68:
-				// a transaction block in a single-slot batch (slot-less MULTI/EXEC must not be mixed with several slots)
+				// a transaction block in a single-slot batch (slot-less MULTI/EXEC must not be mixed with several slots).
+				// Commands in front of the block use a key that exists (preloaded list), the block's commands mostly use
+				// keys that do not exist yet: while the slot is migrating, the source node then serves the former and
+				// answers ASK for the latter, so that only the block travels.
 				ki := r.IntN(len(ks))
-				one := func(k int, write bool) CmdSpec {
-					key := keyOf(ki, "x"+strconv.Itoa(r.IntN(3)))
+				exist := keyOf(ki, "x0")
+				cl.Preload = append(cl.Preload, []string{"VWTAG", exist, "pre." + uid(0)})
+				one := func(k int, write bool, fresh bool) CmdSpec {
+					key := exist
+					if fresh {
+						key = keyOf(ki, "x"+pick(r, "1", "2", "f."+uid(k)))
+					}
 					if write {
 						return CmdSpec{Argv: []string{"VWTAG", key, uid(k)}, Keys: 1}
 					}
@@ -327,18 +335,18 @@ func genCluster(seed uint64, tier, variant string) any {
 				}
 				c = CallSpec{Kind: "multi"}
 				k := 0
-				for i, m := 0, r.IntN(2); i < m; i++ {
-					c.Cmds = append(c.Cmds, one(k, r.IntN(2) == 0))
+				for i, m := 0, r.IntN(3); i < m; i++ {
+					c.Cmds = append(c.Cmds, one(k, r.IntN(2) == 0, false))
 					k++
 				}
 				c.Cmds = append(c.Cmds, CmdSpec{Argv: []string{"MULTI"}})
 				for i, m := 0, 1+r.IntN(3); i < m; i++ {
-					c.Cmds = append(c.Cmds, one(k, r.IntN(2) == 0))
+					c.Cmds = append(c.Cmds, one(k, r.IntN(2) == 0, r.IntN(4) != 0))
 					k++
 				}
 				c.Cmds = append(c.Cmds, CmdSpec{Argv: []string{"EXEC"}})
 				for i, m := 0, r.IntN(2); i < m; i++ {
-					c.Cmds = append(c.Cmds, one(k, false))
+					c.Cmds = append(c.Cmds, one(k, false, false))
 					k++
 				}
 			case x < 74:
@@ -382,7 +390,9 @@ func genCluster(seed uint64, tier, variant string) any {
 				key := keyOf(r.IntN(len(ks)), "m."+uid(0))
 				c.Cmds = []CmdSpec{{Argv: []string{key, "v:" + key + ":" + uid(0)}}}
 			}
-			if !cl.Stable && r.IntN(8) == 0 {
+			if !cl.FaultFree && r.IntN(8) == 0 {
+				// (deadlines only where faults are allowed anyway: a caller whose deadline ends during a dial it shares
+				// with other callers makes their attempt fail too, an invisible fault for the redirect-chain rules)
 				c.TimeoutMs = 200 + r.IntN(3000)
 			}
 			calls = append(calls, c)
@@ -396,7 +406,10 @@ func genCluster(seed uint64, tier, variant string) any {
 			k := ks[r.IntN(len(ks))]
 			to := r.IntN(nsh)
 			g := GhostSpec{MinStep: r.IntN(120)}
-			switch pick(r, "move", "move", "migrate", "migrate", "failover", "down", "freeze-move", "loading") {
+			switch pick(r, "move", "move", "migrate", "migrate", "failover", "down", "freeze-move", "loading", "new-shard") {
+			case "new-shard":
+				p.Ghosts = append(p.Ghosts, GhostSpec{Kind: "new-shard", MinStep: g.MinStep, Argv: []string{strconv.Itoa(k.slot)}})
+				p.Ghosts = append(p.Ghosts, GhostSpec{Kind: pick(r, "migrate-finish", "migrate-cancel"), MinStep: g.MinStep + 30 + r.IntN(120), Argv: []string{strconv.Itoa(k.slot)}})
 			case "move":
 				g.Kind, g.Argv = "move-slot", []string{strconv.Itoa(k.slot), strconv.Itoa(to)}
 				p.Ghosts = append(p.Ghosts, g)
@@ -445,9 +458,33 @@ type clusterEnv struct {
 	cluster *fakeredis.Cluster
 	// expectations recorded at fixed points
 	mapErrs []string
+	// named[slot] = every (model sequence number, address) at which some node named address as the owner of slot to a
+	// client: in an answer to CLUSTER SLOTS / CLUSTER SHARDS or in a MOVED reply. A superset of what the client knows.
+	named    map[int][]namedOwner
+	keySlots []int
+	extra    map[string]int // shard index of nodes added at run time
+	selMu    sync.Mutex
+	selCnt   map[string]int
+	selLog   []selCall
+}
+
+type namedOwner struct {
+	seq  int
+	addr string
+}
+
+type selCall struct {
+	who    string
+	step   int
+	slot   uint16
+	n      int
+	result int
 }
 
 func (ce *clusterEnv) shardOf(addr string) int {
+	if i, ok := ce.extra[addr]; ok {
+		return i
+	}
 	for i, sh := range ce.cp.Cl.Shards {
 		if sh.Master == addr {
 			return i
@@ -519,6 +556,22 @@ func (ce *clusterEnv) clientOption() ClientOption {
 		case strings.HasPrefix(cl.Selector, "rs:"):
 			mode := cl.Selector[3:]
 			opt.ReplicaSelector = func(slot uint16, replicas []NodeInfo) int { return selectorIndex(mode, slot, len(replicas)) }
+		case cl.Selector == "rn:alt":
+			// the answer varies from call to call (per calling task, so that it stays a function of the schedule):
+			// a valid replica, the primary, beyond the list, negative, ...
+			opt.ReadNodeSelector = func(slot uint16, nodes []NodeInfo) int {
+				who := "bg"
+				if v, ok := goNames.Load(curGoid()); ok {
+					who = v.(string)
+				}
+				ce.selMu.Lock()
+				k := ce.selCnt[who]
+				ce.selCnt[who] = k + 1
+				res := []int{1, len(nodes), 0, -1, len(nodes) - 1, 1, 0, len(nodes) + 2}[(k+int(slot))%8]
+				ce.selLog = append(ce.selLog, selCall{who: who, step: ce.sim.Step, slot: slot, n: len(nodes), result: res})
+				ce.selMu.Unlock()
+				return res
+			}
 		case strings.HasPrefix(cl.Selector, "rn:"):
 			mode := cl.Selector[3:]
 			opt.ReadNodeSelector = func(slot uint16, nodes []NodeInfo) int { return selectorIndex(mode, slot, len(nodes)) }
@@ -552,6 +605,37 @@ func (ce *clusterEnv) build() {
 			no.EndpointOverride = "?"
 		}
 		no.Health = o.Health
+	}
+	ce.named, ce.extra, ce.selCnt = map[int][]namedOwner{}, map[string]int{}, map[string]int{}
+	seen := map[int]bool{}
+	for _, calls := range ce.cp.Tasks {
+		for _, c := range calls {
+			for _, cm := range c.Cmds {
+				for _, a := range cm.Argv {
+					if strings.HasPrefix(a, "{") {
+						if sl := fakeredis.KeySlot(a); !seen[sl] {
+							seen[sl] = true
+							ce.keySlots = append(ce.keySlots, sl)
+						}
+					}
+				}
+			}
+		}
+	}
+	sort.Ints(ce.keySlots)
+	w.Intercept = func(sc *fakeredisSrvConn, argv []string) (resp.Value, bool) {
+		if len(argv) == 2 && strings.ToUpper(argv[0]) == "CLUSTER" && sc.ID >= 0 {
+			switch strings.ToUpper(argv[1]) {
+			case "SLOTS", "SHARDS":
+				// what this node is about to tell the client about the slots the plan uses
+				for _, sl := range ce.keySlots {
+					if o := c.OwnerSeenBy(sc.Node.Addr, sl); o != "" {
+						ce.named[sl] = append(ce.named[sl], namedOwner{seq: w.Seq(), addr: o})
+					}
+				}
+			}
+		}
+		return resp.Value{}, false
 	}
 	for _, argv := range ce.cp.Cl.Preload {
 		if o := c.Owner(fakeredis.KeySlot(argv[1])); o != nil {
@@ -658,6 +742,22 @@ func (ce *clusterEnv) ghost(g GhostSpec) func(*sched.Sim) {
 				}
 			}
 		}
+	case "new-shard":
+		// a freshly added, still empty primary starts importing a slot: the ASK names a node no topology answer lists
+		return func(s *sched.Sim) {
+			addr := clAddr(20 + len(ce.extra))
+			if s.W.Nodes[addr] != nil {
+				return
+			}
+			n := c.AddShard(addr, nil)
+			n.Version = s.W.Nodes[ce.cp.Cl.Shards[0].Master].Version
+			ce.extra[addr] = len(ce.cp.Cl.Shards) + len(ce.extra)
+			if o := c.Owner(num(0)); o != nil {
+				if f, _ := c.Migrating(num(0)); f == "" {
+					c.MigrateStart(num(0), addr)
+				}
+			}
+		}
 	case "nodes-up":
 		return func(s *sched.Sim) { ce.nodesUp() }
 	case "cluster-down":
@@ -682,6 +782,20 @@ func (ce *clusterEnv) nodesUp() {
 		ce.sim.W.Nodes[a].Loading = 0
 	}
 	c.SetClusterDown(false)
+	// open migrations end too (a multi-key read of a slot that stays half migrated is answered TRYAGAIN for ever)
+	slots := append([]int(nil), ce.keySlots...)
+	for _, g := range ce.cp.Ghosts {
+		if strings.HasPrefix(g.Kind, "migrate") || g.Kind == "new-shard" {
+			if n, err := strconv.Atoi(g.Argv[0]); err == nil {
+				slots = append(slots, n)
+			}
+		}
+	}
+	for _, sl := range slots {
+		if f, _ := c.Migrating(sl); f != "" {
+			c.MigrateFinish(sl)
+		}
+	}
 	c.SyncAll()
 }
 
@@ -903,6 +1017,26 @@ func (ce *clusterEnv) judge() {
 			executed[uid]++
 		}
 	}
+	for _, ex := range w.Log {
+		if kind, addr := parseRedirect(ex.Reply); kind == "MOVED" {
+			if f := strings.Fields(ex.Reply.S); len(f) == 3 {
+				if sl, err := strconv.Atoi(f[1]); err == nil {
+					ce.named[sl] = append(ce.named[sl], namedOwner{seq: ex.Seq, addr: addr})
+				}
+			}
+		}
+	}
+	namedBefore := func(slot, seq int, node string) (known bool, any bool) {
+		for _, no := range ce.named[slot] {
+			if no.seq < seq {
+				any = true
+				if no.addr == node || (ce.shardOf(no.addr) >= 0 && ce.shardOf(no.addr) == ce.shardOf(node)) {
+					return true, true
+				}
+			}
+		}
+		return false, any
+	}
 	redirectsTotal := 0
 	for _, k := range []string{"MOVED", "ASK"} {
 		redirectsTotal += ce.cluster.Redirects[k]
@@ -1061,6 +1195,19 @@ func (ce *clusterEnv) judge() {
 					out.violate("C19", "resent-in-stable-plan", "task %d call %d cmd %d %q reached nodes %d times in a stable, fault-free plan: %s", task, rec.Index, i, truncArgv(argv), len(att), attemptNodes(att))
 				}
 			}
+			// ---- C19: an attempt that does not follow a redirect goes to a node that some topology answer or MOVED reply
+			// had named as the owner of the slot (or to a member of that node's shard); ASK never makes a node the owner
+			for j, a := range att {
+				if j > 0 {
+					break // a batch retries a command at the node that answered last, whoever that is: only first attempts are judged
+				}
+				if known, any := namedBefore(slot, a.ex.Seq, a.ex.Node); any && !known {
+					out.violate("C19", "sent-to-node-never-named-owner", "task %d call %d cmd %d %q (slot %d) was sent to %s, which no CLUSTER SLOTS/SHARDS answer and no MOVED reply had named as the owner of that slot until then (attempts: %s)", task, rec.Index, i, truncArgv(argv), slot, a.ex.Node, attemptNodes(att))
+					break
+				} else if any {
+					out.judged("attempt-at-named-owner")
+				}
+			}
 			// ---- C19: redirect chain ----
 			followed := 0
 			retrySends := 0
@@ -1153,6 +1300,14 @@ func (ce *clusterEnv) judge() {
 					}
 				}
 			}
+			// ---- C20: a MULTI...EXEC block is executed at most once per call (fault-free) ----
+			if inTx && tx == "queued" && faultFree && !ctxEnded {
+				if executed[uid] > 1 {
+					out.violate("C20", "transaction-executed-twice", "task %d call %d cmd %d %q inside a MULTI...EXEC block was executed %d times although no connection was lost (arrivals %s)", task, rec.Index, i, truncArgv(argv), executed[uid], attemptNodes(att))
+				} else {
+					out.judged("tx-member-executed-at-most-once")
+				}
+			}
 			// ---- C03 (cluster clause): non-retryable writes execute at most once ----
 			if strings.ToUpper(argv[0]) == "VWTAG" && c.Flag == "" {
 				if executed[uid] > 1 {
@@ -1184,6 +1339,40 @@ func (ce *clusterEnv) judge() {
 						out.violate("C28", "retry-without-policy", "task %d call %d cmd %d %q was re-sent %d time(s) after errors but RetryDelay returned a non-negative delay for it only %d time(s) (negative answer seen in this call: %v; nodes %s)", task, rec.Index, i, truncArgv(argv), retrySends, nonNeg, negSeen, attemptNodes(att))
 					}
 					out.judged("retry-judged")
+				}
+			}
+		}
+		// ---- C21: a selector whose answer varies from call to call: command k goes where ITS answer says ----
+		if cl.Selector == "rn:alt" && cl.Stable && faultFree && (spec.Kind == "do" || spec.Kind == "multi") && !hasSlotless(spec.Cmds) {
+			var calls []selCall
+			for _, sc := range ce.selLog {
+				if sc.who == fmt.Sprintf("t%d", task) && sc.step >= rec.StartStep && (rec.EndStep < 0 || sc.step <= rec.EndStep) {
+					calls = append(calls, sc)
+				}
+			}
+			var elig []int
+			for i, c := range spec.Cmds {
+				if specPredicate(pred, c) {
+					elig = append(elig, i)
+				}
+			}
+			if len(calls) != len(elig) {
+				out.notJudged("selector-consulted-another-number-of-times")
+			} else {
+				for k, i := range elig {
+					uid, _ := uidOf(spec.Cmds[i].Argv)
+					att := arrivals[uid]
+					if len(att) == 0 {
+						continue
+					}
+					sc := calls[k]
+					wantReplica := sc.result >= 1 && sc.result < sc.n
+					gotReplica := att[0].ex.Role == "slave"
+					if wantReplica != gotReplica {
+						out.violate("C21", "selector-answer-not-honoured", "task %d call %d cmd %d %q: the read-node selector returned %d of %d candidates for it (index 0 = primary, outside the list = primary) but it was sent to %s (role %s)", task, rec.Index, i, truncArgv(spec.Cmds[i].Argv), sc.result, sc.n, att[0].ex.Node, att[0].ex.Role)
+					} else {
+						out.judged("selector-answer-honoured")
+					}
 				}
 			}
 		}
